@@ -735,7 +735,7 @@ func c08Generate(r *verifh.Run) []string {
 		// the held task has dependents of its own: they are released only by unhold
 		"case 4", "run 0:5", "run 0:5", "run 0:1", "hold 0", "rel 0 0", "run 1:5", "run 0:1", "unhold", "rel 0 0", "rel 0 0", "rel 0 0", "wait",
 	}
-	ncases := r.N(2500, 60000)
+	ncases := r.N(2500, 36000)
 	for c := 0; c < ncases; c++ {
 		nt := 1 + g.Intn(12)
 		nk := 1 + g.Intn(4)
@@ -815,7 +815,7 @@ func c08Generate(r *verifh.Run) []string {
 		}
 		lines = append(lines, "wait")
 	}
-	nfree := r.N(300, 6000)
+	nfree := r.N(300, 4000)
 	for c := 0; c < nfree; c++ {
 		lines = append(lines, fmt.Sprintf("free %d %d %d %d", g.U64()%1000000007, 1+g.Intn(16), 1+g.Intn(40), 1+g.Intn(5)))
 	}
